@@ -210,6 +210,6 @@ MANIFEST = dict(
     design_ref="DESIGN.md §7 C16",
     note="Trusted: Coq kernel; the model<->code tie is the translator (operators and expression shapes) plus differential runs (960/9600 "
          "cases); SpecFloat = hardware f64 sub/div; integer sums do not overflow and f64 sums of integer-valued weights are exact (contract). "
-         "Grid cut / symmetry theorems are for D = 2 and 3 (the only constructible grids); the index bijection and the neighbour-iterator characterisation are proved for every D (C16_grid_index_bij_generic, C16_grid_neighbors_spec_generic: the generic mixed-radix loops and the 2D/3D fast paths agree). No axioms.",
+         "Grid cut / lambda theorems are for D = 2 and 3 (the only constructible grids); the index bijection and the neighbour iterator (spec, symmetry, no duplicate) are proved for every D (C16_grid_index_bij_generic, C16_grid_neighbors_*_generic: the generic mixed-radix loops and the 2D/3D fast paths agree). No axioms.",
     technique="Coq proof + model/implementation correspondence + definitions evaluated on every implementation output",
 )
